@@ -310,6 +310,34 @@ def fs_histories(seed, tier):
     hs.append(('file', ['G0', 'PK0', 'R', 'PK1', 'R']))
     for mode in ('file', 'dir', 'fmt'):
         hs.append((mode, ['GN0', 'R', 'GN1', 'R', 'R', 'GN0', 'R']))
+    # directory mode with two grammar files in the walked tree (`H…`/`D2` address the second one)
+    for d in (['G0', 'H1', 'R', 'R'], ['G0', 'HB0', 'R', 'H1', 'R', 'R'], ['HB1', 'G1', 'R', 'H2', 'R'], ['G0', 'H0', 'P1', 'R', 'P0', 'R', 'D2', 'R'],
+              ['G0', 'H1', 'R', 'B2', 'D2', 'R', 'G3', 'R'], ['G0', 'HB2', 'D', 'R', 'H0', 'D', 'R']):
+        hs.append(('dir2', d))
+    rng2 = random.Random(seed * 7919 + 13)
+    for _ in range(n // 5):
+        ops = ['G%d' % rng2.randrange(4), 'H%d' % rng2.randrange(4)]
+        for _ in range(rng2.randint(2, 10)):
+            q = rng2.random()
+            if q < 0.40:
+                ops.append('R')
+            elif q < 0.50:
+                ops.append('G%d' % rng2.randrange(4))
+            elif q < 0.60:
+                ops.append('H%d' % rng2.randrange(4))
+            elif q < 0.68:
+                ops.append('B%d' % rng2.randrange(len(GRAMMARS_BAD)))
+            elif q < 0.76:
+                ops.append('HB%d' % rng2.randrange(len(GRAMMARS_BAD)))
+            elif q < 0.88:
+                ops.append('P%d' % rng2.randrange(len(PREFIXES)))
+            elif q < 0.94:
+                ops.append('D')
+            else:
+                ops.append('D2')
+        ops.append('R')
+        hs.append(('dir2', ops))
+    n += n // 5
     while len(hs) < n:
         k = rng.randint(2, 12)
         ops = []
@@ -353,6 +381,12 @@ def fs_lines(hs):
                 lines.append('R')
             elif o == 'D':
                 lines.append('D')
+            elif o == 'D2':
+                lines.append('D2')
+            elif o.startswith('HB'):
+                lines.append('G2 ' + hx(GRAMMARS_BAD[int(o[2:])]))
+            elif o[0] == 'H':
+                lines.append('G2 ' + hx(GRAMMARS_OK[int(o[1:])]))
             elif o == 'N':
                 lines.append('G NONE')
             elif o.startswith('GK'):
@@ -431,6 +465,21 @@ def run_fs(hs, workname):
                         if not open(fp, 'rb').read().startswith(hl):
                             fmt_broken.append(pf)
         pi = subprocess.run([PVUNIT, 'fs', d], stdout=subprocess.PIPE, stderr=subprocess.DEVNULL, text=True, timeout=3000)
+        # mode dir2: the order in which the operating system listed the two files is an environment parameter of the model
+        # (`runDir` takes the files in walk order); the harness reports it per run and it is handed to the model on the `R` line
+        ords = {tuple(l.split(' ')[:2]): l.split(' ')[-1] for l in pi.stdout.splitlines() if len(l.split(' ')) == 8}
+        if ords:
+            out_lines, cur, dir2, kk = [], None, False, 0
+            for l in fs_lines(hs):
+                if l.startswith('H '):
+                    cur, dir2, kk = l.split(' ')[1], l.split(' ')[2] == 'dir2', 0
+                if l == 'R':
+                    if dir2:
+                        l = 'R ' + ords.get((cur, str(kk)), '01')
+                    kk += 1
+                out_lines.append(l)
+            with open(os.path.join(d, 'histories.txt'), 'w') as f:
+                f.write('\n'.join(out_lines) + '\n')
         pm = subprocess.run([PEGVERIF, 'fs', d], stdout=subprocess.PIPE, stderr=subprocess.PIPE, text=True, timeout=3000)
         if pm.returncode != 0:
             raise RuntimeError('model fs driver failed: ' + pm.stderr[-1000:])
@@ -439,6 +488,64 @@ def run_fs(hs, workname):
                                                                       rustfmt_outputs_checked_for_KeepsHeaderLines=fmt_checked[0], rustfmt_header_lines_changed=fmt_broken)
     finally:
         shutil.rmtree(d, ignore_errors=True)
+
+
+def check_dir2(i, ops, im, mo, res):
+    """directory mode with two grammar files: per run Result + (content hash, rewritten) of both destinations"""
+    prev = ['NONE', 'NONE']
+    k = 0
+    for oi, o in enumerate(ops):
+        if o == 'D':
+            prev[0] = 'NONE'
+        if o == 'D2':
+            prev[1] = 'NONE'
+        if o != 'R':
+            continue
+        key = ('h%d' % i, str(k))
+        a, b = im.get(key), mo.get(key)
+        res['evaluations'] += 1
+        res['distribution']['dir2 ' + (a or ['missing'])[0]] += 1
+        rp = dict(kind='fs', history=ops, mode='dir2', run_index=k, impl=a, model=b, what='', ops_until_run=ops[:oi + 1],
+                  grammars=GRAMMARS_OK, bad_grammars=GRAMMARS_BAD, prefixes=PREFIXES,
+                  layout='file 0 = sub/g.ebnf, file 1 = sub/deep/h.ebnf; impl = [result, hash0, rewritten0, hash1, rewritten1, listing order]')
+        if a is None or a[0] == 'PANIC' or b is None or len(a) != 6 or len(b) != 7:
+            rp['what'] = 'Compile::directory(..).run() panicked or produced no answer'
+            res['prop'].append(rp)
+            k += 1
+            continue
+        fresh = b[5:7]
+        files = [(a[1], a[2]), (a[3], a[4])]
+        bad = [f == 'UNCOMPILABLE' for f in fresh]
+        if a[0] == 'OK':
+            res['distribution']['dir2 files rewritten in a successful walk: %d' % sum(1 for f in files if f[1] != '0')] += 1
+            for j in (0, 1):
+                if bad[j]:
+                    rp['what'] = 'directory run reported success although file %d does not compile' % j
+                elif files[j][0] != fresh[j]:
+                    rp['what'] = 'after a successful directory run destination %d is not the compilation of its grammar and the prefix' % j
+                elif prev[j] == fresh[j] and files[j][1] != '0':
+                    rp['what'] = 'an up-to-date destination (file %d) was rewritten by the directory run' % j
+        elif a[0] == 'ERR':
+            if not any(bad):
+                rp['what'] = 'directory run failed although both grammars are valid'
+            for j in (0, 1):
+                unchanged = files[j][0] == prev[j] and files[j][1] == '0'
+                if bad[j] and not unchanged:
+                    rp['what'] = 'a failing directory run modified the destination of the file that does not compile (file %d)' % j
+                elif not bad[j] and not unchanged and files[j][0] != fresh[j]:
+                    rp['what'] = 'a failing directory run left destination %d neither as it was nor as the compilation of its grammar' % j
+            if sum(1 for j in (0, 1) if not (files[j][0] == prev[j] and files[j][1] == '0')) == 0:
+                res['distribution']['dir2 failing walk: nothing touched'] += 1
+            else:
+                res['distribution']['dir2 failing walk: the file listed first was compiled'] += 1
+        if rp['what']:
+            res['prop'].append(rp)
+        if a[:5] != b[:5]:
+            rp2 = dict(rp)
+            rp2['what'] = 'directory run over two files: model (runDir) vs implementation (result, destination hashes, rewritten)'
+            res['strict'].append(rp2)
+        prev = [a[1], a[3]]
+        k += 1
 
 
 def run_C18(seed, tier):
@@ -451,6 +558,10 @@ def run_C18(seed, tier):
     for i, (mode, ops) in enumerate(hs):
         k = 0
         prev_hash = 'NONE'
+        if mode == 'dir2':
+            check_dir2(i, ops, im, mo, res)
+            res['nontrivial'].add((mode, tuple('D2' if o == 'D2' else o[0] for o in ops)))
+            continue
         for oi, o in enumerate(ops):
             if o == 'D':
                 prev_hash = 'NONE'
@@ -496,7 +607,7 @@ def run_C18(seed, tier):
     res['samples'] = [dict(mode=hs[j][0], ops=hs[j][1], impl=[im.get(('h%d' % j, str(q))) for q in range(hs[j][1].count('R'))]) for j in (0, 3, len(hs) - 1)]
     res['engine'] = 'fsdiff'
     res['rule'] = ('histories of {edit grammar (4 valid, 5 invalid texts, delete), set prefix (7 prefixes incl. proper prefixes of each other and empty), delete destination, run} '
-                   'of length <= 13 against the real Compile in a scratch directory, file / explicit destination / directory / symlinked directory / `.format()` mode (prefixes rustfmt keeps and prefixes it rewrites); per run: Result, destination content hash, rewritten or untouched; '
+                   'of length <= 13 against the real Compile in a scratch directory, file / explicit destination / directory / symlinked directory / directory with two grammar files at different depths (model: runDir, listing order reported by the harness) / `.format()` mode (prefixes rustfmt keeps and prefixes it rewrites); per run: Result, destination content hash, rewritten or untouched; '
                    'distinct per (mode, operation kinds)')
     res['assumptions'] = ['rustfmt is a parameter of the model (`fmt`); the correspondence run gives the model a table built with the real rustfmt',
                           'the grammar compiler is a table built by calling the real library route once per grammar text']
